@@ -9,6 +9,16 @@ export VERIF_ROOT=$ROOT
 cd "$ROOT/harness" || exit 3
 BIN=$ROOT/work/bin
 mkdir -p "$BIN" "$ROOT/evidence" "$ROOT/replays"
+# The checks build against /repo's current working tree. A background run started with
+# `vp run --with-repo` (or VERIF_REPO=<dir>) builds against that snapshot instead, so that
+# edits made to /repo meanwhile cannot leak into it.
+REPO=${VERIF_REPO:-${VP_RUN_REPO:-/repo}}
+MODFLAG=""
+if [ "$REPO" != /repo ]; then
+  sed "s#=> /repo#=> $REPO#" go.mod > "$ROOT/work/go.alt.mod"
+  cp go.sum "$ROOT/work/go.alt.sum"
+  MODFLAG="-modfile=$ROOT/work/go.alt.mod"
+fi
 build() { # flavour
   local fl=$1 flags=""
   case $fl in
@@ -17,7 +27,7 @@ build() { # flavour
     asan)  flags="-asan" ;;
   esac
   local tmp="$BIN/.verif-$fl.$$"
-  if ! go build -tags verif $flags -o "$tmp" . >"$BIN/build-$fl.$$.log" 2>&1; then
+  if ! go build $MODFLAG -tags verif $flags -o "$tmp" . >"$BIN/build-$fl.$$.log" 2>&1; then
     cat "$BIN/build-$fl.$$.log" >&2; rm -f "$tmp" "$BIN/build-$fl.$$.log"
     echo "BUILD-FAILED flavour=$fl" >&2
     return 3
